@@ -16,6 +16,12 @@ import (
 // C11 part (iii): deviations through parser.LoadModuleFromString. One module per case:
 //   container c { leaf s0; <target x>; leaf sib {...} }  deviation /c/x { ... }
 // The same module without the deviation is loaded as the baseline for "nothing else changes".
+// Second layout (applyDeviation runs after the groupings are expanded, and a uses clones the
+// grouping's definitions shallowly): the three leaves/target are declared in  grouping g  and
+//   container c { uses g; }  container c2 { uses g; }  deviation /c/x  (or /c2/x)
+// The copy of x in the other container is a node no deviation names: its record is given to Coq
+// (it must still be what the grouping declares), the other children of both containers and the
+// multi-valued statements of the grouping itself are compared with the baseline load.
 
 type c11Props struct {
 	config, mandatory *bool
@@ -152,13 +158,33 @@ func (d *c11Dev) term() string {
 	return emit.App("mkDev", emit.Bool(d.notSupported), o(d.add), o(d.repl), o(d.del))
 }
 
-func c11Module(kind string, p *c11Props, d *c11Dev) string {
+const (
+	c11Direct  = 0 // x declared in container c
+	c11GroupC  = 1 // x declared in grouping g, used in c and c2, the deviation names /c/x
+	c11GroupC2 = 2 // same, the deviation names /c2/x (the second expansion)
+)
+
+var c11LayoutName = []string{"direct", "grouping used twice, first copy named", "grouping used twice, second copy named"}
+
+// index (among the module's data definitions) of the container holding the named target
+func c11TargetContainer(layout int) int {
+	if layout == c11GroupC2 {
+		return 1
+	}
+	return 0
+}
+
+func c11Module(layout int, kind string, p *c11Props, d *c11Dev) string {
 	dev := ""
 	if d != nil {
-		dev = " deviation /c/x { " + d.yang() + "}\n"
+		dev = " deviation /" + []string{"c", "c", "c2"}[layout] + "/x { " + d.yang() + "}\n"
 	}
-	return "module m { namespace \"urn:m\"; prefix p; revision 2020-01-01;\n container c {\n  leaf s0 { type string; }\n  " +
-		c11TargetYang(kind, p) + "\n  leaf sib { type string; units s; default d; must \"1\"; }\n }\n" + dev + "}\n"
+	body := "  leaf s0 { type string; }\n  " + c11TargetYang(kind, p) + "\n  leaf sib { type string; units s; default d; must \"1\"; }\n"
+	head := "module m { namespace \"urn:m\"; prefix p; revision 2020-01-01;\n"
+	if layout == c11Direct {
+		return head + " container c {\n" + body + " }\n" + dev + "}\n"
+	}
+	return head + " grouping g {\n" + body + " }\n container c { uses g; }\n container c2 { uses g; }\n" + dev + "}\n"
 }
 
 // record of a compiled definition, as text (for the baseline comparison) and as props
@@ -208,9 +234,9 @@ func c11Record(d meta.Definition) (*c11Props, string) {
 	return p, fmt.Sprintf("%T|%s", d, p.term())
 }
 
-// children of /c: names in order and their records
-func c11Children(m *meta.Module) ([]string, map[string]string, map[string]*c11Props) {
-	c := m.DataDefinitions()[0].(meta.HasDataDefinitions)
+// children of the idx-th top-level container: names in order and their records
+func c11Children(m *meta.Module, idx int) ([]string, map[string]string, map[string]*c11Props) {
+	c := m.DataDefinitions()[idx].(meta.HasDataDefinitions)
 	var names []string
 	recs := map[string]string{}
 	props := map[string]*c11Props{}
@@ -221,6 +247,49 @@ func c11Children(m *meta.Module) ([]string, map[string]string, map[string]*c11Pr
 		props[d.Ident()] = p
 	}
 	return names, recs, props
+}
+
+// the statements of grouping g as written (a grouping is never compiled: config and type are not
+// resolved there, so only what the parser stored is read)
+func c11GroupingRecord(m *meta.Module) (rec string) {
+	defer func() {
+		if r := recover(); r != nil {
+			rec = fmt.Sprintf("panic reading grouping g: %v", r)
+		}
+	}()
+	g := m.Groupings()["g"]
+	if g == nil {
+		return "no grouping g"
+	}
+	var b strings.Builder
+	for _, d := range g.DataDefinitions() {
+		fmt.Fprintf(&b, "%s %T", d.Ident(), d)
+		if h, ok := d.(meta.HasListDetails); ok {
+			fmt.Fprintf(&b, " min=%v/%d max=%v/%d", h.IsMinElementsSet(), h.MinElements(), h.IsMaxElementsSet(), h.MaxElements())
+		}
+		if h, ok := d.(meta.HasMusts); ok {
+			for _, x := range h.Musts() {
+				fmt.Fprintf(&b, " must=%q", x.Expression())
+			}
+		}
+		if h, ok := d.(meta.Leafable); ok {
+			fmt.Fprintf(&b, " units=%q", h.Units())
+			if hv, ok := d.(meta.HasDefaultValues); ok {
+				fmt.Fprintf(&b, " defaults=%q", hv.Default())
+			} else if h.HasDefault() {
+				fmt.Fprintf(&b, " default=%q", d.(meta.HasDefaultValue).Default())
+			}
+		}
+		if l, ok := d.(*meta.List); ok {
+			for _, u := range l.Unique() {
+				e := append([]string{}, u...)
+				sort.Strings(e)
+				fmt.Fprintf(&b, " unique=%q", e)
+			}
+		}
+		b.WriteString("; ")
+	}
+	return b.String()
 }
 
 func c11Load(src string) (m *meta.Module, code int, note string) {
@@ -405,67 +474,193 @@ func c11RandArgs(r *gen.Rng, dk, kind string, cur *c11Props) *c11Args {
 	return a
 }
 
+// multi-valued statements filled in (>= 2 musts, >= 2 defaults on a leaf-list, >= 2 unique entries
+// on a list): the properties a deviation edits element by element
+func c11RichProps(r *gen.Rng, kind string) *c11Props {
+	p := c11RandProps(r, kind)
+	for _, m := range c11Musts {
+		if len(p.musts) >= 2 {
+			break
+		}
+		has := false
+		for _, x := range p.musts {
+			has = has || x == m
+		}
+		if !has {
+			p.musts = append(p.musts, m)
+		}
+	}
+	switch kind {
+	case "leaf-list":
+		if r.Chance(3, 4) {
+			p.min = nil // min-elements and default exclude each other
+		}
+		if p.min == nil {
+			n := 2 + r.Intn(2)
+			at := r.Intn(len(c11Defs))
+			p.defaults = nil
+			for j := 0; j < n; j++ {
+				p.defaults = append(p.defaults, c11Defs[(at+j)%len(c11Defs)])
+			}
+		}
+	case "list":
+		if len(p.unique) < 2 {
+			at := r.Intn(len(c11Uniq))
+			p.unique = [][]string{c11Uniq[at], c11Uniq[(at+1+r.Intn(3))%len(c11Uniq)]}
+		}
+	}
+	return p
+}
+
+func c11RandDev(r *gen.Rng, kind string, p *c11Props, deleteBias bool) (*c11Dev, string) {
+	d := &c11Dev{}
+	x := r.Intn(20)
+	if deleteBias && x < 13 && r.Chance(2, 3) {
+		x = 13 + r.Intn(7) // delete, or add+delete(+replace)
+	}
+	switch {
+	case x < 2:
+		d.notSupported = true
+		return d, "not-supported"
+	case x < 8:
+		d.add = c11RandArgs(r, "add", kind, p)
+		return d, "add"
+	case x < 13:
+		d.repl = c11RandArgs(r, "replace", kind, p)
+		return d, "replace"
+	case x < 18:
+		d.del = c11RandArgs(r, "delete", kind, p)
+		return d, "delete"
+	}
+	d.add, d.del = c11RandArgs(r, "add", kind, p), c11RandArgs(r, "delete", kind, p)
+	if r.Bool() {
+		d.repl = c11RandArgs(r, "replace", kind, p)
+		return d, "add+replace+delete"
+	}
+	return d, "add+delete"
+}
+
 func c11DeviateCases(ctx *core.Ctx, r *gen.Rng) {
+	lr := r.Fork(1) // layout stream
 	n := ctx.Scale(260, 5000)
 	for i := 0; i < n; i++ {
 		kind := c11Kinds[i%4]
 		p := c11RandProps(r, kind)
-		d := &c11Dev{}
-		var dkind string
-		switch x := r.Intn(20); {
-		case x < 2:
-			d.notSupported, dkind = true, "not-supported"
-		case x < 8:
-			d.add, dkind = c11RandArgs(r, "add", kind, p), "add"
-		case x < 13:
-			d.repl, dkind = c11RandArgs(r, "replace", kind, p), "replace"
-		case x < 18:
-			d.del, dkind = c11RandArgs(r, "delete", kind, p), "delete"
-		default:
-			d.add, d.del, dkind = c11RandArgs(r, "add", kind, p), c11RandArgs(r, "delete", kind, p), "add+delete"
-			if r.Bool() {
-				d.repl, dkind = c11RandArgs(r, "replace", kind, p), "add+replace+delete"
+		d, dkind := c11RandDev(r, kind, p, false)
+		layout := c11Direct
+		if lr.Chance(1, 3) {
+			layout = c11GroupC + lr.Intn(2)
+		}
+		c11DeviateCase(ctx, layout, kind, p, d, dkind)
+	}
+	// copies of one grouping: multi-valued properties, deviations that take single elements out
+	sr := r.Fork(2)
+	sk := []string{"leaf-list", "list", "leaf-list", "leaf", "leaf-list", "list", "container", "leaf-list"}
+	n = ctx.Scale(140, 3000)
+	for i := 0; i < n; i++ {
+		kind := sk[i%len(sk)]
+		p := c11RichProps(sr, kind)
+		d, dkind := c11RandDev(sr, kind, p, true)
+		c11DeviateCase(ctx, c11GroupC+sr.Intn(2), kind, p, d, dkind)
+	}
+}
+
+func c11DeviateCase(ctx *core.Ctx, layout int, kind string, p *c11Props, d *c11Dev, dkind string) {
+	kc := map[string]int{"leaf": 0, "leaf-list": 1, "list": 2, "container": 3}[kind]
+	grouped := layout != c11Direct
+	cons := "CDeviate"
+	if grouped {
+		cons = "CDeviateCopy"
+	}
+	tail := func(args ...string) []string { // the copy observation exists only in the grouping layouts
+		if grouped {
+			return args
+		}
+		return args[:len(args)-1]
+	}
+	baseSrc := c11Module(layout, kind, p, nil)
+	base, bcode, bnote := c11Load(baseSrc)
+	if bcode != 0 {
+		// the module without the deviation must load; reported as an observation nothing can agree with
+		ctx.Add(emit.App(cons, tail(emit.Z(int64(kc)), p.term(), d.term(), emit.Z(int64(3)), "false", "false", (&c11Props{}).term(), "None")...),
+			map[string]interface{}{"kind": "deviate", "node": kind, "deviate": dkind, "layout": c11LayoutName[layout], "yang": baseSrc,
+				"note": "the module WITHOUT the deviation does not load: " + bnote}, true)
+		ctx.Count("deviate:baseline does not load")
+		return
+	}
+	tc := c11TargetContainer(layout)
+	src := c11Module(layout, kind, p, d)
+	m, code, note := c11Load(src)
+	removed, othersOK := false, false
+	obs := &c11Props{}
+	copyTerm := "None"
+	var changed []string
+	if code == 0 {
+		// the container of the named target: the other children, in order, unchanged
+		bnames, brecs, _ := c11Children(base, tc)
+		names, recs, props := c11Children(m, tc)
+		_, present := recs["x"]
+		removed = !present
+		var want []string
+		for _, nm := range bnames {
+			if nm != "x" || present {
+				want = append(want, nm)
 			}
 		}
-		kc := map[string]int{"leaf": 0, "leaf-list": 1, "list": 2, "container": 3}[kind]
-		base, bcode, bnote := c11Load(c11Module(kind, p, nil))
-		if bcode != 0 {
-			// the module without the deviation must load; reported as an observation nothing can agree with
-			ctx.Add(emit.App("CDeviate", emit.Z(int64(kc)), p.term(), d.term(), emit.Z(int64(3)), "false", "false", (&c11Props{}).term()),
-				map[string]interface{}{"kind": "deviate", "node": kind, "deviate": dkind, "yang": c11Module(kind, p, nil),
-					"note": "the module WITHOUT the deviation does not load: " + bnote}, true)
-			ctx.Count("deviate:baseline does not load")
-			continue
+		othersOK = strings.Join(want, ",") == strings.Join(names, ",")
+		if !othersOK {
+			changed = append(changed, fmt.Sprintf("children of the target's container: %v, expected %v", names, want))
 		}
-		bnames, brecs, _ := c11Children(base)
-		src := c11Module(kind, p, d)
-		m, code, note := c11Load(src)
-		removed, othersOK := false, false
-		obs := &c11Props{}
-		if code == 0 {
-			names, recs, props := c11Children(m)
-			_, present := recs["x"]
-			removed = !present
-			var want []string
-			for _, nm := range bnames {
-				if nm != "x" || present {
-					want = append(want, nm)
-				}
+		for _, nm := range names {
+			if nm != "x" && recs[nm] != brecs[nm] {
+				othersOK = false
+				changed = append(changed, fmt.Sprintf("%s: %s, was %s", nm, recs[nm], brecs[nm]))
 			}
-			othersOK = strings.Join(want, ",") == strings.Join(names, ",")
-			for _, nm := range names {
-				if nm != "x" && recs[nm] != brecs[nm] {
+		}
+		if present {
+			obs = props["x"]
+		}
+		if grouped {
+			// the other container: same children; its x goes to Coq, the rest against the baseline
+			oc := 1 - tc
+			obnames, obrecs, _ := c11Children(base, oc)
+			onames, orecs, oprops := c11Children(m, oc)
+			if strings.Join(obnames, ",") != strings.Join(onames, ",") {
+				othersOK = false
+				changed = append(changed, fmt.Sprintf("children of the other container: %v, expected %v", onames, obnames))
+			}
+			for _, nm := range onames {
+				if nm != "x" && orecs[nm] != obrecs[nm] {
 					othersOK = false
+					changed = append(changed, fmt.Sprintf("other container/%s: %s, was %s", nm, orecs[nm], obrecs[nm]))
 				}
 			}
-			if present {
-				obs = props["x"]
+			if cp, ok := oprops["x"]; ok {
+				copyTerm = emit.Some(cp.term())
+				if orecs["x"] != obrecs["x"] {
+					changed = append(changed, fmt.Sprintf("the copy of x no deviation names: %s, was %s", orecs["x"], obrecs["x"]))
+				}
+			}
+			if g, bg := c11GroupingRecord(m), c11GroupingRecord(base); g != bg {
+				othersOK = false
+				changed = append(changed, fmt.Sprintf("grouping g: %s, was %s", g, bg))
 			}
 		}
-		ctx.Add(emit.App("CDeviate", emit.Z(int64(kc)), p.term(), d.term(), emit.Z(int64(code)), emit.Bool(removed), emit.Bool(othersOK), obs.term()),
-			map[string]interface{}{"kind": "deviate", "node": kind, "deviate": dkind, "yang": src, "observed_code": code, "note": note,
-				"removed": removed, "others_unchanged": othersOK, "codes": "0 loaded / 1 load error / 2 panic"}, true)
-		ctx.Count("deviate:" + kind + ":" + dkind)
-		ctx.Count(fmt.Sprintf("deviate:code%d", code))
+	}
+	desc := map[string]interface{}{"kind": "deviate", "node": kind, "deviate": dkind, "layout": c11LayoutName[layout], "yang": src,
+		"observed_code": code, "note": note, "removed": removed, "others_unchanged": othersOK, "codes": "0 loaded / 1 load error / 2 panic"}
+	if len(changed) > 0 {
+		desc["changed_although_not_named"] = changed
+	}
+	ctx.Add(emit.App(cons, tail(emit.Z(int64(kc)), p.term(), d.term(), emit.Z(int64(code)), emit.Bool(removed), emit.Bool(othersOK), obs.term(), copyTerm)...),
+		desc, true)
+	ctx.Count("deviate:" + kind + ":" + dkind)
+	ctx.Count("deviate:layout " + c11LayoutName[layout])
+	ctx.Count(fmt.Sprintf("deviate:code%d", code))
+	if grouped && code == 0 && d.del != nil && len(p.defaults) >= 2 && len(d.del.defaults) > 0 && d.del.defaults[0] != p.defaults[len(p.defaults)-1] {
+		ctx.Count("deviate:copies:delete of a default that is not the last of >=2")
+	}
+	if grouped && code == 0 && d.del != nil && (len(d.del.musts) > 0 && len(p.musts) >= 2 || len(d.del.unique) > 0 && len(p.unique) >= 2) {
+		ctx.Count("deviate:copies:delete of one of >=2 musts/unique entries")
 	}
 }
